@@ -88,6 +88,13 @@ for _n in ['T_anytext4', 'anytext3']:
 QUICK += ['anytext3']; THOROUGH += ['anytext3', 'T_anytext4']
 
 
+# past the parser: unusual symbols through grouping, LZ coding and packing — two samples sharing a run of N inside a splitter-bounded
+# segment, the second with one substituted base at every position (every code A,C,G,T,N), through the real pipeline
+from harness import pipe as _pipe
+INSTANCES["nrun_subst_multi_t1"] = _pipe.INSTANCES["nrun_subst_multi_t1"]
+QUICK.append("nrun_subst_multi_t1"); THOROUGH.append("nrun_subst_multi_t1")
+
+
 def run(ctx):
     insts = [INSTANCES[n] for n in (QUICK if ctx["tier"] == "quick" else THOROUGH)]
     return run_instances("C16", "harness.C16", insts, ctx,
